@@ -1,13 +1,89 @@
 from .common import H
 
+# GALOIS_DEBUG_SKIP: Debug (asan) builds do not print gDebug lines. The MPI ranks spin while they wait for each other, so the
+# process count x threads is kept <= 8 (topology "2": two cores per rank) and every run is bounded by case counts.
 ENV = dict(GALOIS_DEBUG_SKIP=1)
+
+QUICK = {1: 30, 2: 45, 3: 45, 4: 60}
+THOROUGH = {1: 150, 2: 500, 3: 500, 4: 700}
 
 
 def c18(tier):
     runs = []
-    for np in (1, 2, 3, 4):
-        runs.append(H("c18_gluon", "dist", 10, "2", env=ENV, mpi=np, timeout_per_case=30, timeout_base=180))
+    plan = QUICK if tier == "quick" else THOROUGH
+    for np in (4, 3, 2, 1):
+        runs.append(H("c18_gluon", "dist", plan[np], "2" if np > 1 else "1,1", env=ENV, mpi=np, params=dict(salt=np),
+                      timeout_per_case=60, timeout_base=240))
+    if tier == "thorough":
+        # same plan, other random inputs, sockets = 2 x 1 core (other thread-pool layout), no streaming policies
+        for np in (2, 4):
+            runs.append(H("c18_gluon", "dist", 250, "1,1", env=ENV, mpi=np, params=dict(salt=10 + np, streaming=0),
+                          timeout_per_case=60, timeout_base=240))
     return runs
 
 
-SPEC = dict(runs=c18, technique="", level_text="", level_note="", rule="", require={}, assumptions=[])
+SPEC = dict(
+    runs=c18,
+    technique="runtime monitoring (differential): the real CuSP partitioner + GluonSubstrate run under mpirun -np 1..4 on "
+              "generated graphs; every round's pre-values, contributions and post-values of all proxies of all hosts are "
+              "gathered with plain MPI on a private communicator and compared on rank 0 with an independent reference reduction",
+    level_text="For every generated case: graph (16 shapes, 2..6000 nodes incl. hubs above GenericHVC's 1000-edge threshold) -> "
+               ".gr + transpose -> cuspPartitionGraph<Policy, NodeData, void> called exactly as DistBench/Input.h does for the 11 "
+               "schemes (oec, iec, hovc, hivc, cvc, cvc-iec, ginger-o/i, fennel-o/i, sugar-o) x iterate-out / iterate-in / "
+               "symmetric -> GluonSubstrate constructed as DistBench/Start.h does (incl. enforced metadata mode and "
+               "partitionAgnostic) -> 3..12 rounds on the same substrate. A round: one of 9 fields declared with the library's "
+               "GALOIS_SYNC_STRUCTURE_REDUCE_{MIN,MAX,ADD,SET,PAIR_WISE_ADD_ARRAY,MIN_ARRAY,ADD_ARRAY,SET_ARRAY} + BITSET macros "
+               "(atomic<uint32_t>, uint32_t, uint64_t, double, std::vector<double>; node fields and external arrays); one of the 9 "
+               "(write, read) location pairs; with its bitset or without one; BSP or the apps' asynchronous DGTerminator loop; "
+               "update densities none / one proxy / sparse / half / most / all / one-host-only / mirrors-only / masters-only / "
+               "whole nodes; written by 1-2 threads through the apps' idioms (atomicMin + bitset.set on improvement, atomicAdd + "
+               "set, assignment + set); a random host enters the sync late. Rounds either re-initialise all proxies (any change of "
+               "field / locations / bitset / async between rounds: buffer and bitset reuse) or continue on the values and bitset "
+               "left by the previous sync with the same configuration (app-like iteration; for add either reset_mirrorField like "
+               "pagerank or consumption of the read values like kcore). Oracle: expected(node) = reduce(master pre-value, all "
+               "contributions written at eligible proxies); the master and every mirror readable at the read location must hold "
+               "exactly that value after the sync (floating point fields only receive exactly summable integers). Held on all "
+               "executions observed - not on all graphs, write patterns or message arrival orders.",
+    level_note="Trusts the reference reduction (about 60 lines of integer/double arithmetic in c18_main.cpp), plain MPI collectives, "
+               "and that eligibility/readability derived from each host's local edges is what the partitioning policy guarantees. "
+               "Message arrival orders are whatever Open MPI over shared memory and the OS scheduler produce, plus one delayed host "
+               "per round; np x threads <= 8 on a shared 16-core machine.",
+    rule="case = (graph shape/size, scheme, iterate direction, hosts, threads, enforced metadata mode, partitionAgnostic) with 3..12 "
+         "sync rounds on one substrate; non-trivial iff hosts >= 2 and at least one checked proxy holds a value that crossed hosts "
+         "(a master changed by a mirror's contribution, or a mirror changed by another proxy's contribution); distinct by (scheme, "
+         "direction, hosts, threads, mode, agnostic, per-round (field, write loc, read loc, bitset, async, continuation kind, density))",
+    require={"rounds": 400, "mirrors_checked": 20000, "cross_host_updates": 10000, "multi_contribution_nodes": 2000,
+             "written_mirrors": 5000, "async_rounds": 20, "continuation_rounds": 80, "nobitset_rounds": 40,
+             "rounds_mode_auto": 100, "rounds_mode_bitset": 20, "rounds_mode_offsets": 20, "rounds_mode_gids": 20,
+             "rounds_mode_dense": 20, "cases_np2": 10, "cases_np3": 10, "cases_np4": 10},
+    assumptions=[
+        "Eligibility (derived from GluonSubstrate::sync_*_to_*(), nothingToSend/Recv, isNotCommPartnerCVC and the apps' operators): a "
+        "mirror is written 'at source' only if it has local outgoing edges, 'at destination' only if it has local incoming edges, "
+        "'any' always; masters are always eligible (their value is the canonical one; the apps' source loops run over "
+        "allNodesWithEdgesRange, which contains every master). Likewise a mirror is readable at source/destination iff it has local "
+        "out/in edges. With an edge cut (oec, transposed iec, ...) the policy guarantees mirrors have no edges of one direction, "
+        "which is exactly why Gluon skips the reduce or broadcast half there; such proxies are never written/checked.",
+        "Masters are always checked against the reduced value, also when they have no edge of the read direction (the apps read "
+        "their results from the masters).",
+        "Protocol the sync structures assume (SyncStructures.h, apps): before a round all proxies of a node agree; min/max: a write "
+        "is atomicMin/atomicMax-style and the bitset is marked only on improvement; add: mirrors hold the identity, a write "
+        "accumulates a delta, the mirror of an untouched node may keep the identity when only flagged values travel; set: a single "
+        "writer per node. Reduce_set while every value travels (no bitset, or metadata mode enforced to onlyData = 'sends "
+        "non-updated values') is only determinate if all proxies of a node carry the same value: then the harness writes the same "
+        "value at all proxies with writeAny.",
+        "Continuation rounds keep (field, write loc, read loc, bitset, async) of the previous round, like an app's loop; proxies not "
+        "readable at the read location may be stale there (never checked; min/max contributions are monotone, set replaces).",
+        "Asynchronous execution is driven exactly like bfs_push.cpp (DGTerminator loop, writes in 1-3 waves) and only for what has "
+        "a schedule-independent final state: min/max/set fields, with bitset, automatic metadata mode. Not covered: async add (the "
+        "broadcast accumulates into mirrors; the apps' consumption makes the outcome app-specific), async with an enforced "
+        "metadata mode or without bitset (every call sends a message, the terminator is never quiescent).",
+        "Per-mode observations: rounds_mode_* counts rounds under each enforced DataCommMode (get_data_mode returns the enforced mode "
+        "for every non-empty proxy list); rank0_auto_lists_* classifies rank 0's mirror lists by the mode the library's own "
+        "get_data_mode() selects for the marked share in automatic mode; rank0_built_* are Gluon's own MetadataMode statistics of "
+        "rank 0 (MORE_DIST_STATS), read from the statistics file at the end of each harness process.",
+        "Inputs CuSP itself does not survive are avoided (C19's subject): fewer nodes than hosts; an edge-less graph with the "
+        "streaming policies (Fennel/Ginger/Sugar score is NaN, out-of-bounds host index).",
+        "GluonEdgeSubstrate (edge-proxy sync over MiningGraph) is not exercised: no application calls its sync; "
+        "GALOIS_SYNC_STRUCTURE_REDUCE_PAIR_WISE_ADD_ARRAY_SINGLE + VECTOR_BITSET are not covered (see report).",
+    ],
+)
